@@ -458,6 +458,47 @@ def check_ownership(ctx, cfg, it, name, rule="C03.I"):
     ctx.sample({"rule": rule, "method": name, "cfg": cfg, "detail": det[:600]})
 
 
+def check_other_cursor_moves(ctx, cfg, it, rule="C06.E"):
+    """Every exported method of the by-value iterator that is not one of the methods judged by name, and that stores to `index` / `index_back`
+    (a new inherent method, an overridden provided method), is judged by the same ownership reading: on each return path the range claimed at
+    entry is exactly partitioned into what was destroyed, what was moved out (and returned) and what is still claimed. Moving a cursor forward
+    without moving or destroying the element leaks it; moving it back makes the iterator claim an element it already gave away."""
+    judged = set(K.values())
+    n = 0
+    for b, byval in iter_entry_points(ctx, cfg, it):
+        if b["key"] in judged or b["key"].endswith(" as core::ops::Drop>::drop"):
+            continue
+        an = ctx.analysis_inl(cfg, b["key"], it.inv_facts(byval), split=True, keep=(K["next"], K["next_back"]), tag="inv%dx" % byval)
+        base = ("local", 1) if byval else ("arg", 1)
+        if not stores_to(an, it, base):
+            continue
+        n += 1
+        if an.unknown:
+            ctx.ob(rule, b["key"], UNKNOWN, "analysis incomplete: %s" % (an.unknown[:2],), at=b["at"], cfg=cfg)
+            continue
+        if has_cycle(an):
+            ctx.ob(rule, b["key"], UNKNOWN, "a method that stores to the iterator's cursors inside a loop: outside the path-enumeration argument", at=b["at"], cfg=cfg)
+            continue
+        bad, dets = [], []
+        for r in an.returns:
+            ps = acyclic_paths(an, r["bb"])
+            if ps is None:
+                bad.append((UNKNOWN, "too many paths"))
+                continue
+            for p_ in ps:
+                st, det = ownership_path(an, it, None, p_, r, byval=byval)
+                dets.append(det)
+                if st != PROVED:
+                    bad.append((st, det))
+        if bad:
+            st = REFUTED if any(x[0] == REFUTED for x in bad) else UNKNOWN
+            det = "; ".join(sorted({x[1] for x in bad}))
+        else:
+            st, det = PROVED, "on each return path the entry range [index, index_back) is exactly partitioned: %s" % " | ".join(sorted(set(dets)))
+        ctx.ob(rule, b["key"], st, ("a method outside the judged set stores to the iterator's cursors: " + det)[:1200], at=b["at"], cfg=cfg)
+    return n
+
+
 def check_nth(ctx, cfg, it, name):
     rule = "C06.S"
     b, an = analyse_x(ctx, cfg, K[name], it)
@@ -1008,6 +1049,7 @@ def check(ctx):
         check_clone(ctx, cfg, it)
         check_live_range(ctx, cfg, it)
         check_total(ctx, cfg, it)
+        check_other_cursor_moves(ctx, cfg, it)
         n = check_unchecked_bounds(ctx, cfg, it)
         ctx.floor("C06.U", "unchecked accesses to the iterator's storage (%s)" % cfg, n, 4)
         # FusedIterator / ExactSizeIterator are claimed by impls: they must exist for the checks above to matter
